@@ -729,6 +729,65 @@ pub struct DecParams {
     pub hw_binade_step: u64,
 }
 
+/// WRAP: significands m (at most the width of the float's mantissa, so eligible for the fast
+/// paths) and powers k of the radix such that the 64-bit product m * radix^k wraps around 2^64 to
+/// a value just above 0 or just below 2^64: unchecked / wrapping multiplications in the fast paths
+/// then produce a plausible small product. Written as `m e (q0 + k)` for every base exponent q0
+/// at which the fast paths are still considered.
+pub fn fam_wrap<C: Checker>(spell: &Spell, f: Fmt, make: &(dyn Fn() -> C + Sync)) {
+    let mut c = make();
+    let r = spell.radix as u128;
+    let mant_limit: u128 = 1u128 << (f.mant_bits + 1);
+    let two64: u128 = 1u128 << 64;
+    // odd part and power of two of the radix
+    let a = (spell.radix as u64).trailing_zeros() as u128;
+    let o = r >> a;
+    let mut rk: u128 = 1; // radix^k, stops before exceeding 2^64
+    let mut ok: u128 = 1; // o^k mod 2^64
+    for k in 1..=40u32 {
+        rk = match rk.checked_mul(r) {
+            Some(v) if v < two64 => v,
+            _ => break,
+        };
+        ok = (ok * o) % two64;
+        let shift = a * k as u128; // radix^k = o^k * 2^shift
+        if shift >= 64 {
+            break;
+        }
+        let modulus: u128 = 1u128 << (64 - shift); // m matters modulo this
+        // inverse of o^k modulo `modulus` (o odd): Newton iteration
+        let mut inv: u128 = 1;
+        for _ in 0..7 {
+            inv = (inv * ((2 + modulus * 4 - (ok % modulus) * inv % modulus) % modulus)) % modulus;
+        }
+        debug_assert_eq!((ok % modulus) * inv % modulus, 1 % modulus);
+        let mut found = 0;
+        let mut s: u128 = 1;
+        while found < 24 && s < 1 << 16 {
+            for t in [s, modulus - s] {
+                // m * o^k == t (mod modulus)  =>  m * radix^k == t * 2^shift (mod 2^64)
+                let m0 = (t % modulus) * inv % modulus;
+                let mut m = m0;
+                while m < mant_limit && found < 24 {
+                    if m > 0 && m * rk >= two64 {
+                        found += 1;
+                        let digits = Big::from_u128(m).to_digits(spell.radix);
+                        for q0 in [0i64, 1, 5, 10, 15, 20, 22, 23] {
+                            c.check(&spell.plain(&digits, q0 + k as i64));
+                        }
+                    }
+                    m += modulus;
+                    if modulus >= mant_limit {
+                        break;
+                    }
+                }
+            }
+            s += 1;
+        }
+    }
+    c.done();
+}
+
 /// Run all decimal families for one float type on one subject with the rounding checker.
 pub fn run_decimal_families<T: Flt>(
     rep: &Report,
@@ -757,6 +816,7 @@ pub fn run_decimal_families<T: Flt>(
     fam_cf(&spell, T::FMT, p.cf_per, qlo - 19, qhi, th, &mk("CF", false));
     fam_hw(&spell, T::FMT, p.hw_level, p.hw_binade_step, th, &mk("HW", false));
     fam_bd(&spell, T::FMT, &mk("BD", true));
+    fam_wrap(&spell, T::FMT, &mk("WRAP", false));
 }
 
 /// Replay one violation key: `<type>|<entry>|<subject>|<hex input>`.
@@ -1073,6 +1133,11 @@ impl<'a, T: Flt> Checker for LossyChecker<'a, T> {
                 self.rep.violation(key("parse"), format!("C19 [{}] {:?}: literal zero changed by lossy: {:#x} vs {:#x}", sub.name, show_trunc(s), va, vb));
                 return;
             }
+        }
+        // an input that the lossless parser rounds to zero stays zero ("zero ... unchanged")
+        if f.abs(va) == 0 && f.abs(vb) != 0 {
+            self.rep.violation(key("parse"), format!("C19 [{}] {:?}: the lossless result is zero but lossy gives {:#x}", sub.name, show_trunc(s), vb));
+            return;
         }
         // within one ULP of the correctly rounded value (exact arithmetic)
         if let Some(x) = parse_full(&self.g, s) {
